@@ -200,7 +200,7 @@ DEN = z3.Function("den", Seq, Atom, z3.RealSort())                 # composition
 DENP = z3.Function("den_prefix", Seq, z3.IntSort(), Atom, z3.RealSort())
 SUP = z3.Function("sup", Seq, Atom, z3.BoolSort())                 # a occurs as a leaf
 SUPP = z3.Function("sup_prefix", Seq, z3.IntSort(), Atom, z3.BoolSort())
-CONCAT = z3.Function("concat", Seq, Seq, Seq)
+CONCAT = z3.Function("struct_concat", Seq, Seq, Seq)
 
 
 def contrib(f, a):
